@@ -23,7 +23,7 @@ Inductive err :=
 | EAllNo           (* "all the roots are decided as 'no'" *)
 | ECrit            (* crit(...) was called: index inconsistency, event not found, wrong epoch/creator in Build *)
 | EPanic           (* the Go code would panic (nil event, counter too wide for FillBytes) *)
-| EFuel.           (* model ran out of fuel; theorems state the fuel bound under which this is unreachable *)
+| EFuel.           (* model ran out of fuel; unreachable: proofs/AbftFuel.v (process/build/bootstrap never return it) *)
 Inductive result (A : Type) := Ok (a : A) | Err (e : err).
 Arguments Ok {A} a. Arguments Err {A} e.
 
